@@ -23,6 +23,14 @@ from ..probes.sanitizers import Sanitizers, make_loggers
 from ..probes.trace import Trace
 
 
+class CaseTimeout(BaseException):
+    pass
+
+
+class SpinError(RuntimeError):
+    pass
+
+
 class Obs:
     """What an executor returns."""
 
@@ -203,6 +211,7 @@ def run_asyncio(case):
     async def main(loop):
         trace = Trace(loop.time)
         obs.trace = trace
+        loop.spin_trace = trace
         from hypercorn.asyncio.task_group import TaskGroup as _TG
 
         with _PutProbe(_TG, trace), Sanitizers(trace) as san:
@@ -372,6 +381,10 @@ def run_asyncio(case):
 
     try:
         vloop.run(main)
+    except vloop.SpinDetected as e:
+        obs.spin = str(e)
+    except CaseTimeout:
+        obs.harness_error = "case wall-clock watchdog"
     except BaseException as e:
         if isinstance(e, KeyboardInterrupt):
             raise
@@ -402,9 +415,20 @@ def run_trio(case):
         pass
     steps = [0]
 
+    spin = {"n": 0, "t": 0.0, "at": 0}
+
     class _Inst(trio.abc.Instrument):
         def before_task_step(self, task):
             steps[0] += 1
+            tr = obs.trace
+            if tr is not None:
+                n = len(tr.events)
+                t = clock.current_time()
+                if n != spin["n"] or t != spin["t"]:
+                    spin["n"], spin["t"], spin["at"] = n, t, steps[0]
+                elif steps[0] - spin["at"] > 60000:
+                    spin["at"] = steps[0] + 10 ** 12
+                    raise SpinError("%d task steps without an event or clock advance" % 60000)
 
     async def wait_blocked():
         # executor threads (WSGI) are invisible to wait_all_tasks_blocked: poll them in real time
@@ -590,22 +614,45 @@ def run_trio(case):
     _tt.run_sync = counting_run_sync
     try:
         trio.run(main, clock=clock, instruments=[_Inst()])
+    except CaseTimeout:
+        obs.harness_error = "case wall-clock watchdog"
     except BaseException as e:
         if isinstance(e, KeyboardInterrupt):
             raise
-        obs.harness_error = "".join(traceback.format_exception(e))[-3000:]
+        text = "".join(traceback.format_exception(e))
+        if "SpinError" in text:
+            obs.spin = "task steps without an event or clock advance"
+        else:
+            obs.harness_error = text[-3000:]
     finally:
         _tt.run_sync = orig_run_sync
     return obs
 
 
-def run_case(case, backend):
-    if backend == "asyncio":
-        obs = run_asyncio(case)
-    elif backend == "trio":
-        obs = run_trio(case)
-    else:
-        raise ValueError(backend)
+def _alarm(signum, frame):
+    raise CaseTimeout()
+
+
+def run_case(case, backend, wall_limit=60):
+    import signal
+
+    old = None
+    try:
+        old = signal.signal(signal.SIGALRM, _alarm)
+        signal.alarm(int(case.get("wall_limit", wall_limit)))
+    except (ValueError, AttributeError):
+        old = None
+    try:
+        if backend == "asyncio":
+            obs = run_asyncio(case)
+        elif backend == "trio":
+            obs = run_trio(case)
+        else:
+            raise ValueError(backend)
+    finally:
+        if old is not None:
+            signal.alarm(0)
+            signal.signal(signal.SIGALRM, old)
     if obs.trace is not None and obs.end_seq is not None:
         del obs.trace.events[obs.end_seq:]  # what happened during teardown is not part of the observation
     return obs
